@@ -41,10 +41,29 @@ needs = {
  "C14_D":"K+B+pawn(s) v K+B, not a hard-coded fortress, with the pawnless side to move",
  "C19_C":"a book file in which one key's records are not adjacent (unsorted / concatenated books)",
  "C19_D":"position ..., then `moves ...` or `ucinewgame`, then go with no new position command (stale cached book key)",
+ "C19_bookE":"a double push on the a- or h-file while the side to move has a pawn on the opposite edge file one rank off (square arithmetic wraps around the board edge in the book key)",
+ "C19_bookF":"a go on a position outside the book, then a go on a book position, with no ucinewgame or re-set of the book option in between (out-of-book latch)",
+ "C19_bookG":"setting the Polyglot Book option a second time in one process (records of the previous file are kept)",
+ "C05_searchE":"a pv with a castling move of the root side's opponent (2nd, 4th ... move): printed with the root position's side to move",
+ "C09_searchF":"earlier go left a root table entry; later go ... searchmoves excludes that move; stop lands before iteration 1 completes",
+ "C10_searchG":"clock-based go with ply + 2*(movestogo-1) >= 900: FEN with a move number around 460+, or a 700-ply game with movestogo 120",
+ "C14_evalE":"a heavy-piece-v-bare-king evaluation followed by a KPK/KPsK/KNNK/KNBK/KBPsK position of the same strong colour (process-wide memo of the last matching endgame evaluator)",
+ "C14_evalF":"a revisited pawn structure with a different structure evaluated in between and a minor piece on a square that is an outpost under only one of them",
+ "C10_evalG":"rook-v-pawn endgames of both colours in one process (function-local static latched by the first colour; reads a piece-list slot of a side without pawns). Labelled C10 by its author (ASan SEGV with poisoned memory); with the harness's zero-filled heap it shows as a C14 violation (value differs from a pristine process)",
+ "C05_positionE":"a rook or queen plays e1g1/e1c1/e8g8/e8c8 (own king elsewhere) while the opponent still holds that wing's castling right",
+ "C07_positionF":"any copy of a Position (the search's copy on every go) or a second position command: history copied with a byte count instead of an entry count",
+ "C04_positionG":"more than ~1e5 distinct positions in one process, and only with the engine's real zobrist::init() (keys truncated to 32 bits)",
+ "C06_uciE":"stop handled before the new search thread has constructed the Search object (also an unsynchronised pointer)",
+ "C05_uciF":"after ucinewgame the first position command equals or extends the last one of the previous game (cached position text)",
+ "C10_uciG":"every go without a mate token branches on the uninitialised Limits::mate (valgrind; natively sometimes ignores the depth limit)",
+ "C06_ttE":"stop or quit while a search is running: Search::stop() bumps the table epoch that the search thread reads (data race)",
+ "C05_ttF":"a PV node in check with remaining depth > 5 and no table entry: e.g. an in-check root with searchmoves (unbounded recursion, SIGSEGV)",
+ "C10_ttG":"first probe of any table slot reads indeterminate key/epoch (only visible to an uninitialised-value detector; a zero-filled heap hides it)",
 }
 for d in sorted(glob.glob('/verif/seeded/*/')):
     n = os.path.basename(d.rstrip('/'))
     prop = n.split('_')[0]
+    check_prop = open(d + 'CHECK_WITH').read().strip() if os.path.exists(d + 'CHECK_WITH') else prop
     out = open(d + 'check_output.txt').read() if os.path.exists(d + 'check_output.txt') else ''
     classes = re.findall(r'^violation class=(\S+) (?:runs=(\d+))?', out, re.M)
     classes = [(c, r or '1') for c, r in classes]
@@ -53,7 +72,7 @@ for d in sorted(glob.glob('/verif/seeded/*/')):
     meta = {
         "id": n,
         "breaks_property": prop,
-        "origin": "independent sub-agent given only the property text and a scratch worktree (round %d)" % (1 if n[-1] in "AB" else 2),
+        "origin": "independent sub-agent given only the property text and a scratch worktree (round %d)" % (1 if n[-1] in "AB" and "_" in n and len(n.split("_")[1]) == 1 else (2 if len(n.split("_")[1]) == 1 else 3)),
         "needs_to_manifest": needs.get(n, ""),
         "confirmed_by_me": {
             "how": "tools/confirm_seeded.sh in the scratch worktree: with the patch the project builds with -Wall -Wextra -pedantic -Werror and ./_build/unitTests passes (47 tests); the demonstration (run_demo.sh) fails with the patch and passes without",
@@ -61,7 +80,7 @@ for d in sorted(glob.glob('/verif/seeded/*/')):
             "demo_without_patch": open(d + 'confirm_demo_without_patch.txt').read()[-300:] if os.path.exists(d + 'confirm_demo_without_patch.txt') else "",
         },
         "registered_check": {
-            "command": "git -C /repo apply patch.diff && ./check.sh %s quick ; git -C /repo checkout -- ." % prop,
+            "command": "git -C /repo apply patch.diff && ./check.sh %s quick ; git -C /repo checkout -- ." % check_prop,
             "exit": int(ex[-1]) if ex else None,
             "violation_classes": [{"class": c, "runs": int(r)} for c, r in classes],
             "batches": [{"variant": v, "runs": int(r), "finished": int(f)} for _, v, r, f in totals],
